@@ -41,20 +41,20 @@ CHECKS.update({
 })
 CHECKS.update({
  "C11": ("fault_enumeration", "fault injection: exhaustive single faults at every input-iterator and output-writer position of the real merger; hook-level and RLIMIT_FSIZE (kernel EFBIG) faults inside SimpleDB flush/compaction in sub-processes; oracle = fault-free output / reference map",
-         "(a) every Next position of every input (3 failure variants) and every WriteNext position of generated merges is failed once against the real Merge/MergeCompact/MergeCompactIterator; (b) flushes and compaction cycles of a real SimpleDB (driven, and by the real background compactor while Close waits for it) run in sub-processes with a failing k-th data/index append, a failing input record a file-size limit that makes write(2) fail at a chosen byte, or one file of the new table on a full device (symlink to /dev/full: ENOSPC); success may only be reported for complete output, after a reported compaction error the same and a fresh process must still read the model.",
+         "(a) every Next position of every input (3 failure variants) and every WriteNext position of generated merges is failed once against the real Merge/MergeCompact/MergeCompactIterator; (b) flushes (forced, and the one Close performs) and compaction cycles (over all tables, and over a run that leaves the oldest table out) of a real SimpleDB (driven, and by the real background compactor while Close waits for it) run in sub-processes with a failing k-th data/index append, a failing input record a file-size limit that makes write(2) fail at a chosen byte, or one file of the new table on a full device (symlink to /dev/full: ENOSPC); success may only be reported for complete output, after a reported compaction error the same and a fresh process must still read the model.",
          "hook failures are clean failures; kernel faults only through RLIMIT_FSIZE (EFBIG); a failed flush ends in log.Panicf, what it leaves on disk is judged by C02", "§3 C11", "E6"),
 })
 CHECKS.update({
  "C01": ("exploration", "reference-model monitor: Go map shadowing every SimpleDB call of seeded single-client programs with driven (helper-placed) and live (ticker) flush/compaction schedules and per-session option redraws",
          "Seeded programs of Put/Delete/Get/rotation/compaction-cycle/Close+re-Open (new options each session) run against the real database; every read is compared with a map, every rotation, compaction and reopen is followed by a full read-back, one case logs 150 MiB of incompressible values into ONE memstore generation with every option at its default and is then cleanly re-opened twice, and a child killed by log.Panicf in the flusher or compactor is a violation. Exploration: the schedules are those the program places (driven) or the scheduler/ticker produce (live).",
-         "valid keys/values only; live schedules are not enumerated, only sampled", "§3 C01", "E1"),
+         "valid keys/values only (a third of the keys are not valid UTF-8); live schedules are not enumerated, only sampled", "§3 C01", "E1"),
 })
 CHECKS.update({
  "C06": ("exploration", "reference-model monitor + tag-guarded single-cycle helper: read-all before/after every compaction cycle over built table lineages; selection checked as a contiguous run of the live table list",
          "Lineages of real tables with controlled sizes and tombstone ratios (tombstones over older, larger values; size- and ratio-selected tables around an unselected one) are built through forced rotations; every compaction cycle is bracketed by a read of all keys (identical before/after and equal to the map), its selection must be a gap-free run in age order replaced in the slot of its oldest member; settings are redrawn at reopens; one lineage in a hundred carries a value of 1..2 MiB in every table; one lineage in eight sits on top of one of the repository's legacy-format fixture tables (no metadata file, reports 0 records / 0 bytes).",
          "selection policy itself is not judged, only gap-freeness and placement", "§3 C06", "E1"),
  "C17": ("exploration", "differential monitor (string-API database vs byte-API database) + reference map that ignores rejected calls, observed directly / after rotation+flush / after clean reopen; sessions with a WAL that cannot append (direct I/O without async) as a source of I/O errors",
-         "The same seeded program with nil/empty/non-UTF-8/64 KiB arguments runs against two databases through the two API flavours; decisions and results must agree, rejected calls (incl. calls on a handle before its Open) must leave no trace at any observation point, and reads must not change across flush or restart. Crash-image observation is provided by the C02 engine (C17 crash cases).",
+         "The same seeded program with nil/empty/non-UTF-8/64 KiB arguments runs against two databases through the two API flavours; decisions and results must agree, rejected calls (incl. calls on a handle before its Open) must leave no trace at any observation point, a Delete of a non-empty key must not be refused where Put accepts it, and reads must not change across flush or restart. Crash-image observation is provided by the C02 engine (C17 crash cases).",
          "nil byte slices correspond to empty strings; empty-key Delete only required to be invisible", "§3 C17", "E1"),
 })
 CHECKS.update({
@@ -65,17 +65,17 @@ CHECKS.update({
          "One SimpleDB handle (8 goroutines, own, shared and each other's keys with self-describing values, rotations and compactions running or everything in one memstore; in every other run callbacks at two named points make the flusher's table publication and the compactor's swap start within nanoseconds of each other, every other run calls Close while the calls are still in flight, two shared keys hold 40..70 KiB values), one SSTableReader (8..16 goroutines of Get/Contains/range scans; one table in three without a bloom filter file) and one MMapReader (ReadNextAt/SeekNext) are exercised in the race-detector build across seeds and GOMAXPROCS {2,4,16}; any report touching go-sstables or the harness, any abnormal exit, any result differing from the sequential answer and any state-based deadlock (a client blocked inside the library while no library goroutine can run, read off the watchdog's goroutine dump) is a violation.",
          "the race detector reports only races that happened in the observed executions; Scan() is outside the documented concurrent surface", "§3 C18", "E4"),
  "C19": ("exploration", "resource census monitor: /proc/self/fd + /proc/self/maps filtered by directory and goroutine dump filtered by go-sstables frames, at quiescent points and after Close",
-         "Driven SimpleDB sessions with >=40 cycles are censused at every quiescent point (descriptors <= 4, mappings <= live tables + 3) and after Close (nothing left, no library goroutine, re-Open and RemoveAll work); live sessions are closed while a compaction is held in flight at a hook point; table and RecordIO readers/writers (incl. failed Opens, abandoned scans, legacy-format tables, writers rewound before Close, stacked readers one member of which was closed before, delete-only sessions on a fresh directory, and short sessions over planted crash residue (empty table folder, table folder with an empty metadata file, leftover compaction folder) with the garbage collector held off so that no finalizer hides a forgotten descriptor) must return to the baseline after Close.",
+         "Driven SimpleDB sessions with >=40 cycles are censused at every quiescent point (descriptors <= 4, mappings <= live tables + 3) and after Close (nothing left, no library goroutine, re-Open and RemoveAll work); live sessions are closed while a compaction is held in flight at a hook point; table and RecordIO readers/writers (incl. failed Opens, abandoned scans, legacy-format tables, writers rewound before Close, stacked readers one member of which was closed before, delete-only sessions on a fresh directory, sessions with the asynchronous direct-I/O log on a real file system, and short sessions over planted crash residue (empty table folder, table folder with an empty metadata file, leftover compaction folder) with the garbage collector held off so that no finalizer hides a forgotten descriptor) must return to the baseline after Close.",
          "Linux /proc is the ground truth; goroutine attribution by stack frames", "§3 C19", "E5"),
 })
 CHECKS.update({
  "C02": ("fault_enumeration", "offline checker over recorded system-call logs: strace -f trace of real sessions -> in-memory file-system replay -> crash image at every mutating call (+ unlink-order permutations) -> fresh-process Open + read-all compared with the acknowledged-operations model",
-         "Whole sessions (open, operations incl. runs of consecutive deletes, memstore limits from 16 bytes to 64 MiB, values up to 6 MiB, size-triggered and forced rotations, background flushes and compactions, close, reopen) run under strace with INV/ACK markers in the same log; every boundary between two file-system-mutating system calls of any thread is turned into a directory image (fidelity self-check: final replayed image == real directory) and every distinct image is recovered by a fresh process (every 4th additionally continues with a put and a delete and is then either closed and re-opened or killed a second time and recovered again); every second run ends with a session driven by three concurrent clients on disjoint keys; Open must succeed and each key must read model(acked) or model(acked + in-flight op). Enumerates every crash point of the traced executions; sessions/schedules are sampled.",
+         "Whole sessions (open, operations incl. runs of consecutive deletes, one put in three handed over in ONE reused caller buffer per key, memstore limits from 16 bytes to 64 MiB, values up to 6 MiB, size-triggered and forced rotations, background flushes and compactions, close, reopen) run under strace with INV/ACK markers in the same log; every boundary between two file-system-mutating system calls of any thread is turned into a directory image (fidelity self-check: final replayed image == real directory) and every distinct image is recovered by a fresh process (every 4th additionally continues with a put and a delete and is then either closed and re-opened or killed a second time and recovered again); every second run ends with a session driven by three concurrent clients on disjoint keys; Open must succeed and each key must read model(acked) or model(acked + in-flight op). Enumerates every crash point of the traced executions; sessions/schedules are sampled.",
          "kill -9 model (completed system calls retained, single write not torn); schedules are those that occurred under strace; other listing orders emulated for unlink runs only", "§2.2, §3 C02", "E2"),
 })
 CHECKS.update({
  "C07": ("fault_enumeration", "reference-model monitor (appended sequence vs fresh Replay) + offline checkers over strace logs of WAL-only sessions: crash image at every mutating call -> Replay in a fresh process must give a prefix containing all acknowledged sync appends; fsync-ordering monitor over write/fsync events",
-         "(a) seeded append/rotate programs over limits {9..1MiB}, buffers and compressions (every 20th through the direct-I/O writer; base paths handed over in spellings that are not in cleaned form, another spelling for the fresh replayer; every 10th program shares its process with two other logs appended to from goroutines of their own) are replayed through the still-open log object in between and by the same object and a fresh replayer at the end; (b) WAL-only sessions run under strace with small writer buffers so that flushes cut records, every boundary between mutating system calls is materialised and replayed by a fresh process; (c) the same log is scanned for 'write reached the file and the file was fsynced before AppendSync returned'; (d) programs whose appender meets a failing write(2) (RLIMIT_FSIZE in a sub-process) and goes on appending, retrying and rotating: replay must succeed and deliver the attempts minus failed ones as a gap-free prefix containing every acknowledged sync append.",
+         "(a) seeded append/rotate programs over limits {9..1MiB}, buffers and compressions (every 20th through the direct-I/O writer with 120..320 appends per program so that single files are flushed many times; base paths handed over in spellings that are not in cleaned form, another spelling for the fresh replayer; every 10th program shares its process with two other logs appended to from goroutines of their own) are replayed through the still-open log object in between and by the same object and a fresh replayer at the end; (b) WAL-only sessions run under strace with small writer buffers so that flushes cut records, every boundary between mutating system calls is materialised and replayed by a fresh process; (c) the same log is scanned for 'write reached the file and the file was fsynced before AppendSync returned'; (d) programs whose appender meets a failing write(2) (RLIMIT_FSIZE in a sub-process) and goes on appending, retrying and rotating: replay must succeed and deliver the attempts minus failed ones as a gap-free prefix containing every acknowledged sync append.",
          "kill -9 model; nil and empty records are both length-0 payloads for the oracle", "§3 C07", "E1+E2"),
  "C10": ("fault_enumeration", "nested crash-image enumeration: level-1 images from traced sessions, recovery of each traced again, level-2 (sampled level-3) image at every mutating call of Open incl. unlink-order permutations; oracle = read-all after the uninterrupted recovery",
          "For sampled crash images of real sessions (per phase, incl. pending flagged compactions and non-empty WALs) the recovery itself runs under strace; after every mutating system call of that recovery (and for every subset of each listing-ordered unlink run) a fresh Open must succeed and read exactly what the uninterrupted recovery reads. Exhaustive over the crash points of the traced recoveries; level-1 images are sampled.",
